@@ -97,13 +97,21 @@ def default_addr_text(name):
 
 def conf_text(moddir, svcs, timeout="1h", modules=("iauth_xquery",), rules=None, logs=None, extra=""):
     """Configuration file text, one entry per line (layout-independent of the parser fixes)."""
+    if len(svcs) == 1 and svcs[0]["type"] == "@noxquery":
+        # marker table: iauth_xquery is not loaded; the core module (and iauth_class, if asked for) only
+        svcs = []
+        modules = tuple(m for m in modules if m != "iauth_xquery") or ("iauth",)
+        noxq = True
+    else:
+        noxq = False
     lines = ["core {", '  library_path ( "%s" )' % moddir, "  modules ( %s )" % ", ".join(modules), "}"]
     if timeout:
         lines += ["iauth {", "  timeout %s" % timeout, "}"]
-    lines += ["iauth_xquery {"]
-    for s in svcs:
-        lines.append('  "%s" "%s"' % (s["name"], s["type"]))
-    lines += ["}"]
+    if not noxq:
+        lines += ["iauth_xquery {"]
+        for s in svcs:
+            lines.append('  "%s" "%s"' % (s["name"], s["type"]))
+        lines += ["}"]
     if rules is not None:
         lines += ["iauth_class {"]
         for r in rules:
@@ -158,7 +166,9 @@ class Daemon:
         self.dead = False
         self.banner = []
         self.banner_raw = []
-        # read the start-up banner up to the policy line
+        # read the start-up banner up to the policy line; without iauth_xquery no module declares a policy and no "O" line
+        # is written, so the end of the banner is found with a barrier
+        noxq = len(svcs) == 1 and svcs[0]["type"] == "@noxquery"
         while True:
             ln = self._readline(self.step_timeout)
             if ln is None:
@@ -166,6 +176,12 @@ class Daemon:
                 break
             self.banner_raw.append(ln)
             if ln.startswith(b"O "):
+                break
+            if noxq and ln.startswith(b"V "):
+                lines, n = self.raw_step(b"")
+                self.banner_raw += lines
+                if n is None:
+                    self.dead = True
                 break
 
     # ---- low level ----------------------------------------------------------------------------
